@@ -72,6 +72,15 @@ def check(ctx, cfg):
     r5(ctx, cfg)
     r6(ctx, cfg)
     r7(ctx, cfg)
+    r8(ctx, cfg)
+
+
+def r8(ctx, cfg):
+    """premise shared with C17: the response that enters the data / event pipeline is the contract's own - for a contract written
+    against `Empty` it passes through `customize_response` first, which must carry data (absent stays absent), events and
+    attributes over unchanged (C17.R4 under C04's id)"""
+    from rules import C17
+    C17.response_lift(ctx, cfg, "C04.R8")
 
 
 def _strip_validate(o):
